@@ -283,7 +283,7 @@ def explore(copia, uni_blob, seed, root, max_states=None, alt_every=10, dry_ever
     return edges, stats, trusted, blobs
 
 
-FAULT_KINDS = ["absent", "zero", "trunc", "garbage", "wrong_shape", "version0", "version2", "foreign_pair",
+FAULT_KINDS = ["stale_bak", "absent", "zero", "trunc", "garbage", "wrong_shape", "version0", "version2", "foreign_pair",
                "other_order_copied", "only_bak", "only_tmp"]
 
 
@@ -321,6 +321,11 @@ def fault_state(job):
         os.rename(path, path + ".bak")
     elif kind == "only_tmp":
         os.rename(path, path + ".tmp")
+    elif kind == "stale_bak":
+        # the live archive is gone; what `save` retained from an earlier generation (another archive the real code wrote) is still there
+        os.unlink(path)
+        open(path + ".bak", "wb").write(zlib.decompress(param).replace(b"@PAIR@", _W["pair"]["AB"].encode()))
+        param = 0
     p, nplan, nconf = _run("AB")
     tA, al1 = _project_tree(_W["A"])
     tB, al2 = _project_tree(_W["B"])
